@@ -83,6 +83,34 @@ class NpProxy:
             return NpProxy.tracer.lift(x).sqrt()
         return np.sqrt(x)
 
+    def bincount(self, x, weights=None, minlength=0):
+        """`np.bincount` casts its weights to float64; with symbolic weights the same accumulation (in index order of the
+        input, as bincount does) is carried out on the expression DAG"""
+        if weights is not None and np.asarray(weights).dtype == object and NpProxy.tracer is not None:
+            x = np.asarray(x).reshape(-1)
+            w = np.asarray(weights, dtype=object).reshape(-1)
+            n = max(int(x.max()) + 1 if len(x) else 0, minlength)
+            out = np.empty(n, dtype=object)
+            seen = [False] * n
+            for i, wi in zip(x, w):
+                out[i] = (out[i] + wi) if seen[i] else wi
+                seen[i] = True
+            for i in range(n):
+                if not seen[i]:
+                    out[i] = NpProxy.tracer.lift(0)
+            return out
+        return np.bincount(x, weights, minlength)
+
+    def zeros(self, shape, dtype=float, **kw):
+        """a float `np.zeros` buffer that receives symbolic values through `np.add.at` / item assignment"""
+        if NpProxy.tracer is not None and dtype is float:
+            out = np.empty(shape, dtype=object)
+            z = NpProxy.tracer.lift(0)
+            for idx in np.ndindex(*out.shape):
+                out[idx] = z
+            return out
+        return np.zeros(shape, dtype=dtype, **kw)
+
 
 # ---------------------------------------------------------------- module writer
 
@@ -332,3 +360,130 @@ def gen_measures():
     g.vec("normalized0", tr, [as_sym(tr, x) for x in vnorm[0]], names)
     written.append(g.write())
     return written
+
+
+# ---------------------------------------------------------------- vertex-based measures and function transfer (tria_mesh.py)
+
+T4 = [[0, 1, 2], [0, 3, 1], [0, 2, 3], [1, 3, 2]]
+
+
+@contextlib.contextmanager
+def np_proxied(module, tr):
+    saved = module.np
+    module.np = NpProxy()
+    NpProxy.tracer = tr
+    try:
+        yield
+    finally:
+        module.np = saved
+        NpProxy.tracer = None
+
+
+def flat_syms(tr, arr):
+    return [as_sym(tr, x) for x in np.asarray(arr, dtype=object).reshape(-1)]
+
+
+def gen_vertex_measures():
+    """vertex_areas, avg_edge_length, vertex_normals, normal_offset_ traced on the boundary of a generic tetrahedron"""
+    import lapy.tria_mesh as TM
+    tr = Tracer()
+    v = sym_array(tr, "v", (4, 3))
+    t = np.array(T4)
+    names = v3_names("v", 4)
+    names["d"] = "d"
+    m = TM.TriaMesh(v, t)
+    with np_proxied(TM, tr):
+        vareas = m.vertex_areas()
+        avg = m.avg_edge_length()
+        vn = m.vertex_normals()
+        m2 = TM.TriaMesh(v, t)
+        m2.normal_offset_(tr.var("d"))
+        off = m2.v
+    g = GenModule("VertexMeasures", "lapy/tria_mesh.py::vertex_areas/avg_edge_length/vertex_normals/normal_offset_ "
+                  "on the tetrahedron boundary [[0,1,2],[0,3,1],[0,2,3],[1,3,2]]", "(v0 v1 v2 v3 : V3 ℝ) (d : ℝ)")
+    g.set_args("v0 v1 v2 v3 d")
+    g.pc(tr, names)
+    g.vec("vareas", tr, flat_syms(tr, vareas), names)
+    g.scalar("avg", tr, as_sym(tr, avg).id, names)
+    g.vec("vnormal0", tr, flat_syms(tr, vn[0]), names)
+    g.vec("vnormal3", tr, flat_syms(tr, vn[3]), names)
+    g.vec("offset0", tr, flat_syms(tr, off[0]), names)
+    return [g.write()]
+
+
+def gen_transfer():
+    """map_tfunc_to_vfunc (plain / weighted) and map_vfunc_to_tfunc traced on the tetrahedron boundary, two columns"""
+    import lapy.tria_mesh as TM
+    tr = Tracer()
+    v = sym_array(tr, "v", (4, 3))
+    t = np.array(T4)
+    names = v3_names("v", 4)
+    f = sym_array(tr, "f", (4, 2))
+    names.update({"f%d_%d" % (k, c): "f%d%d" % (k, c) for k in range(4) for c in range(2)})
+    m = TM.TriaMesh(v, t)
+    with np_proxied(TM, tr):
+        t2v = m.map_tfunc_to_vfunc(f)
+        t2vw = m.map_tfunc_to_vfunc(f, weighted=True)
+        v2t = m.map_vfunc_to_tfunc(f)
+        t2v1 = m.map_tfunc_to_vfunc(f[:, 0])
+    fb = " ".join("f%d%d" % (k, c) for k in range(4) for c in range(2))
+    g = GenModule("TransferTri", "lapy/tria_mesh.py::map_tfunc_to_vfunc/map_vfunc_to_tfunc on the tetrahedron boundary, "
+                  "function with two columns", "(v0 v1 v2 v3 : V3 ℝ) (%s : ℝ)" % fb)
+    g.set_args("v0 v1 v2 v3 " + fb)
+    g.pc(tr, names)
+    g.vec("t2v", tr, flat_syms(tr, t2v), names)
+    g.vec("t2vw", tr, flat_syms(tr, t2vw), names)
+    g.vec("v2t", tr, flat_syms(tr, v2t), names)
+    g.vec("t2v1", tr, flat_syms(tr, t2v1), names)
+    return [g.write()]
+
+
+def gen_heat():
+    """heat.kernel / heat.diagonal on symbolic spectra: 3 vertices, 3 eigenpairs of which n = 2 are used, 2 times"""
+    import lapy.heat as H
+    tr = Tracer()
+    E = sym_array(tr, "e", (3, 3))
+    lam = sym_array(tr, "l", (3,))
+    ts = sym_array(tr, "t", (2,))
+    names = {"e%d_%d" % (i, j): "e%d%d" % (i, j) for i in range(3) for j in range(3)}
+    names.update({"l%d" % j: "l%d" % j for j in range(3)})
+    names.update({"t%d" % j: "t%d" % j for j in range(2)})
+    k = H.kernel(ts, 1, E, lam, 2)
+    dg = H.diagonal(ts, np.array([2, 0]), E, lam, 2)
+    k1 = H.kernel(ts[0], 0, E, lam, 3)
+    eb = " ".join("e%d%d" % (i, j) for i in range(3) for j in range(3))
+    g = GenModule("HeatKernel", "lapy/heat.py::kernel/diagonal (3 vertices, 3 eigenpairs, n = 2, two times; scalar time, n = 3)",
+                  "(%s l0 l1 l2 t0 t1 : ℝ)" % eb)
+    g.set_args(eb + " l0 l1 l2 t0 t1")
+    g.pc(tr, names)
+    g.vec("kernel", tr, flat_syms(tr, k), names)
+    g.vec("diagonal", tr, flat_syms(tr, dg), names)
+    g.vec("kernel1", tr, flat_syms(tr, k1), names)
+    return [g.write()]
+
+
+def gen_misc():
+    """inverse_stereographic (two-column input), reweight_ev, TetMesh.avg_edge_length (one tetrahedron)"""
+    import lapy.conformal as CF
+    import lapy.shapedna as SD
+    import lapy.tet_mesh as TT
+    tr = Tracer()
+    w = sym_array(tr, "w", (1, 2))
+    ev = sym_array(tr, "l", (4,))
+    v = sym_array(tr, "v", (4, 3))
+    names = v3_names("v", 4)
+    names.update({"w0_0": "x", "w0_1": "y"})
+    names.update({"l%d" % j: "l%d" % j for j in range(4)})
+    inv = CF.inverse_stereographic(w)
+    rw = SD.reweight_ev(ev)
+    tm = TT.TetMesh(v, np.array([[0, 1, 2, 3]]))
+    with np_proxied(TT, tr):
+        avg = tm.avg_edge_length()
+    g = GenModule("Misc", "lapy/conformal.py::inverse_stereographic, lapy/shapedna.py::reweight_ev, "
+                  "lapy/tet_mesh.py::TetMesh.avg_edge_length", "(v0 v1 v2 v3 : V3 ℝ) (x y l0 l1 l2 l3 : ℝ)")
+    g.set_args("v0 v1 v2 v3 x y l0 l1 l2 l3")
+    g.pc(tr, names)
+    g.vec("invstereo", tr, flat_syms(tr, inv), names)
+    g.vec("reweight", tr, flat_syms(tr, rw), names)
+    g.scalar("tetavg", tr, as_sym(tr, avg).id, names)
+    return [g.write()]
